@@ -491,6 +491,66 @@ func c20ReadData(p *ana.Prog, r *ana.Result) {
 	} else {
 		r.Violate("C20.readdata", fname, "unknown-noncritical-skipped", posOf(p, def.Instrs[0]), "an unrecognised non-critical record is not consumed by a full read of msg.BodyLen bytes")
 	}
+	// the cookie pool holds the cookies issued: every cookie appended to data.Cookie is a buffer
+	// allocated for that record (no shared scratch buffer that a later record overwrites)
+	nApp := 0
+	ana.Instrs(fn, func(in ssa.Instruction) {
+		c, ok := in.(*ssa.Call)
+		if !ok {
+			return
+		}
+		if bi, isB := c.Call.Value.(*ssa.Builtin); !isB || bi.Name() != "append" || len(c.Call.Args) != 2 {
+			return
+		}
+		if ch, _ := fieldChain(c.Call.Args[0]); ch != "Cookie" {
+			return
+		}
+		nApp++
+		// the appended element: stored into the varargs array
+		fresh := false
+		var elem ssa.Value
+		if sl, ok := c.Call.Args[1].(*ssa.Slice); ok {
+			if arr, ok := sl.X.(*ssa.Alloc); ok {
+				for _, ref := range ana.Referrers(arr) {
+					if ia, ok := ref.(*ssa.IndexAddr); ok {
+						for _, r2 := range ana.Referrers(ia) {
+							if st, ok := r2.(*ssa.Store); ok {
+								elem = st.Val
+							}
+						}
+					}
+				}
+			}
+		}
+		switch e := elem.(type) {
+		case *ssa.MakeSlice:
+			fresh = e.Block() == c.Block() || e.Block().Dominates(c.Block())
+			// allocated for this record: inside the record loop, after the header read
+			if fresh {
+				hdrRead := false
+				for _, b := range fn.Blocks {
+					for _, j := range b.Instrs {
+						if cc, ok := j.(*ssa.Call); ok && ana.CalleeName(&cc.Call) == "encoding/binary.Read" && isRecordHdrVar(ana.Strip(cc.Call.Args[2])) {
+							if b == e.Block() || b.Dominates(e.Block()) {
+								hdrRead = true
+							}
+						}
+					}
+				}
+				fresh = hdrRead
+			}
+		case *ssa.Slice:
+			if al, ok := e.X.(*ssa.Alloc); ok && al.Heap && (al.Block() == c.Block() || al.Block().Dominates(c.Block())) {
+				fresh = al.Block().Index != 0
+			}
+		}
+		if fresh {
+			r.Ok("C20.readdata", fname, "cookie-is-own-buffer", posOf(p, c), "each cookie record is stored in a buffer allocated for that record")
+		} else {
+			r.Violate("C20.readdata", fname, "cookie-is-own-buffer", posOf(p, c), "the slice appended to the cookie pool is not a buffer allocated for this record (cookies share storage that later records overwrite: the pool no longer holds the cookies the server issued)")
+		}
+	})
+	r.Floor("C20.readdata.cookie-appends", nApp, 1)
 	// error arm always fails: from the arm of RecError (2) no path to the header read or a success return
 	var errArm *ssa.BasicBlock
 	ana.IfEdges(fn, func(iff *ssa.If, b *ssa.BasicBlock) {
